@@ -369,7 +369,10 @@ func c13RepeatConcat(r *core.Run) {
 						t := tensor.New(tensor.Of(d.D), tensor.WithShape(shape...))
 						var ps tensor.Shape
 						var res tensor.Tensor
-						o1 := call(func() (e error) { ps, _, _, e = tensor.Shape(ref.CopyInts(shape)).Repeat(ax, ref.CopyInts(reps)...); return })
+						o1 := call(func() (e error) {
+							ps, _, _, e = tensor.Shape(ref.CopyInts(shape)).Repeat(ax, ref.CopyInts(reps)...)
+							return
+						})
 						o2 := call(func() (e error) { res, e = t.Repeat(ax, ref.CopyInts(reps)...); return })
 						r.Op(2)
 						r.Outcome("Repeat:" + o1.Class + "/" + o2.Class)
